@@ -109,3 +109,40 @@ def command_id(rules, e):
         return re.sub(r"\$\{?(\w+)\}?", lambda m: env.get(m.group(1), ""), s)
 
     return sub(r.get("command", "")) + "\n" + sub(r.get("rspfile_content", ""))
+
+
+def expand(rules, e, key):
+    """the rule variable `key` (command, rspfile_content, ...) with $in/$out/edge variables substituted"""
+    r = rules.get(e["rule"], {})
+    env = dict(e["vars"])
+    env["in"] = " ".join(e["ins"])
+    env["out"] = " ".join(e["outs"])
+    return re.sub(r"\$\{?(\w+)\}?", lambda m: env.get(m.group(1), ""), r.get(key, ""))
+
+
+def command_text(rules, e):
+    """the string ninja hashes into .ninja_log (ninja 1.13 hashes it with rapidhash; the harness
+    compares the strings themselves instead of re-implementing the hash)"""
+    cmd = expand(rules, e, "command")
+    if rules.get(e["rule"], {}).get("rspfile"):
+        cmd += ";rspfile=" + expand(rules, e, "rspfile_content")
+    return cmd
+
+
+def read_log(path):
+    """.ninja_log -> {output: (recorded mtime, command hash)} (last entry wins)"""
+    out = {}
+    p = Path(path)
+    if not p.is_file():
+        return out
+    for line in p.read_text().splitlines():
+        if line.startswith("#") or not line.strip():
+            continue
+        f = line.split("\t")
+        if len(f) != 5:
+            continue  # a torn line
+        try:
+            out[f[3]] = (int(f[2]), int(f[4], 16))
+        except ValueError:
+            continue
+    return out
